@@ -173,6 +173,15 @@ theorem Wf_congr (val' : Nat → Nat → G) (P : Nat → Prop) {a b : Nat}
     · show val c b * Wf op val a b n (op b c) = val' c b * Wf op val' a b n (op b c)
       rw [(hval c hc).2, h2.1]
 
+/-- the word over the first `n` crossings only depends on the values at these crossings -/
+theorem Wf_congr_n (val' : Nat → Nat → G) : ∀ (n a b c : Nat),
+    (∀ t, t < n → val (wk op a b t c) (ix a b t) = val' (wk op a b t c) (ix a b t)) →
+    Wf op val a b n c = Wf op val' a b n c
+  | 0, _, _, _, _ => rfl
+  | n + 1, a, b, c, h => by
+    rw [Wf_succ_last, Wf_succ_last, h n (Nat.lt_succ_self n),
+      Wf_congr_n val' n a b c (fun t ht => h t (Nat.lt_succ_of_lt ht))]
+
 end generic
 
 end DSymVerif.FGP
